@@ -74,9 +74,13 @@ class TLCRun:
                     self.depth = int(m.group(1))
                 if line.startswith("Error:"):
                     err_lines.append(line.strip())
+                if "violated by the initial state" in line:
+                    in_state = True
+                    continue
                 if line.startswith("State ") or line.startswith("/\\ ") or in_state:
-                    if len(state_lines) < 400:
-                        state_lines.append(line.rstrip("\n"))
+                    state_lines.append(line.rstrip("\n"))
+                    if len(state_lines) > 800:          # keep the END of a long error trace
+                        del state_lines[:400]
                     in_state = line.strip() != ""
         self.errors = err_lines
         if err_lines:
